@@ -237,13 +237,16 @@ def fixed_wallet(name):
     from btc_hd_wallet import PaperWallet
     if name not in WALLETS:
         net, seed = name.split(":")
-        WALLETS[name] = PaperWallet.from_bip39_seed_hex(seed, testnet=(net == "test"))
+        # "xkey:<extended key>": a wallet imported from an extended key (e.g. an account-level private key)
+        WALLETS[name] = PaperWallet.from_extended_key(seed) if net == "xkey" else PaperWallet.from_bip39_seed_hex(seed, testnet=(net == "test"))
     return WALLETS[name]
 
 
 def fresh_wallet(name):
     from btc_hd_wallet import PaperWallet
     net, seed = name.split(":")
+    if net == "xkey":
+        return PaperWallet.from_extended_key(seed)
     return PaperWallet.from_bip39_seed_hex(seed, testnet=(net == "test"))
 
 
@@ -439,6 +442,25 @@ def DerivePath(inp, tab, ev):
         del root                      # only the node that was asked for is kept by the caller
         gc.collect()
     ev["res"] = res_of(ok, v, node_view)
+
+
+@act
+def MisloadedPub(inp, tab, ev):
+    """an extended PUBLIC key loaded through the private node class (PrvKeyNode.parse of an xpub string - the library
+    does this itself while importing): still public-only data; hardened derivation from it is refused"""
+    from btc_hd_wallet.bip32 import PrvKeyNode
+    from . import refwallet as W
+    rn = ref_node(tab, inp["par"])
+    xpub = W.ser(tab, rn, W.VERSIONS[("pub", rn.net, "bip44")], False)
+    i = int.from_bytes(bytes(inp["i"]), "big")
+    probes = []
+    ok0, n = call(PrvKeyNode.parse, xpub, rn.net == "test")
+    if ok0:
+        for what, f in (("ckd", lambda: n.ckd(i)), ("derive_path", lambda: n.derive_path([i])),
+                        ("generate_children", lambda: list(n.generate_children((i, i + 1))))):
+            okp, v = call(f)
+            probes.append({"what": what, "ok": bool(okp and v is not None and v != [])})
+    ev["res"] = {"ok": True, "v": {"loaded": ok0, "probes": probes}}
 
 
 @act
@@ -698,6 +720,50 @@ def SecParse(inp, tab, ev):
     ev["res"] = res_of(ok, pk)
 
 
+@act
+def BadPointNode(inp, tab, ev):
+    """a PUBLIC node whose 33-byte key is not a curve point, obtained by each route; nothing may be emitted for it"""
+    from btc_hd_wallet import BaseWallet
+    from btc_hd_wallet.bip32 import PubKeyNode
+    K = bytes(inp["K"])
+    tab.secnorm(K)
+    payload = bytes.fromhex("0488b21e") + bytes([2]) + b"\x11\x22\x33\x44" + (5).to_bytes(4, "big") + bytes(range(32)) + K
+    xpub = R.b58check_enc(payload)
+    probes = []
+
+    def probe(what, f):
+        try:
+            v = f()
+            probes.append({"what": what, "ok": v is not None})
+        except Exception:
+            probes.append({"what": what, "ok": False})
+
+    def node():
+        r = inp["route"]
+        if r == "ctor":
+            return PubKeyNode(key=K, chain_code=bytes(range(32)), index=5, depth=2, parent_fingerprint=b"\x11\x22\x33\x44")
+        if r == "bytes":
+            return PubKeyNode.parse(payload)
+        if r == "str":
+            return PubKeyNode.parse(xpub)
+        return BaseWallet.from_extended_key(xpub).master
+    try:
+        n = node()
+    except Exception:
+        n = None
+    if n is not None:
+        w = BaseWallet(master=n)
+        probe("extended_public_key", n.extended_public_key)
+        probe("serialize_public", n.serialize_public)
+        probe("fingerprint", n.fingerprint)
+        probe("ckd", lambda: n.ckd(0))
+        probe("public_key-sec", lambda: n.public_key.sec())
+        for k in KIND_SEQ:
+            probe(k + "_address", lambda k=k: getattr(w, k + "_address")(n))
+        probe("node_extended_keys", lambda: w.node_extended_keys(n)["pub"])
+    ev["res"] = {"ok": True, "v": {"built": n is not None, "probes": probes}}
+
+
 # ----------------------------------------------------------- C05 addresses
 def emitted_address_oracle(tab, s):
     """Hash256 of the body of an emitted Base58Check string (for Classify), and of every maximal
@@ -735,7 +801,8 @@ def Addr(inp, tab, ev):
         if ok:
             ok, v = call(getattr(w_["w"], inp["kind"] + "_address"), w_["w"].master)
     elif inp["via"] == "wallet":
-        node = PubKeyNode(key=K, chain_code=bytes(32), testnet=test)
+        # (node_net: the node object may have been made by a wallet of the other network - the WALLET's network decides)
+        node = PubKeyNode(key=K, chain_code=bytes(32), testnet=(inp.get("node_net", inp["net"]) == "test"))
         w = BaseWallet(master=node, testnet=test)
         ok, v = call(getattr(w, inp["kind"] + "_address"), node)
     else:
@@ -1160,6 +1227,21 @@ def Emit(inp, tab, ev):
                 for k in KIND_SEQ:
                     leaves.append(("addr", getattr(w, k + "_address")(n)))
                 for row in w.group([n], w.p2pkh_address):
+                    leaves.append(("addr", row[1]))
+                    if row[3] is not None:
+                        leaves.append(("wif", row[3]))
+        elif what == "foreign-node":
+            # a node object made by a wallet of the OTHER network, handed to this wallet's address / key / row APIs:
+            # what this wallet emits carries this wallet's network
+            other = PaperWallet.from_bip39_seed_hex(inp["seed"], testnet=not w.testnet)
+            for pth in ("m/0/1", "m/84'/0'/0'/0/3"):
+                n = other.by_path(pth)
+                for k in KIND_SEQ:
+                    leaves.append(("addr", getattr(w, k + "_address")(n)))
+                d = w.node_extended_keys(n)
+                leaves.append(("pub", d["pub"]))
+                leaves.append(("prv", d["prv"]))
+                for row in w.group([n], w.p2wpkh_address):
                     leaves.append(("addr", row[1]))
                     if row[3] is not None:
                         leaves.append(("wif", row[3]))
